@@ -5,7 +5,7 @@ of right-hand sides, and moving values in and out of variable cells.
 import NoulithModel.Lemmas.HeapLeaf
 
 namespace Noulith.RcHeap
-open Noulith.Store (Tree modPath pyIdx setφ takeφ popφ removeφ getPath setPath)
+open Noulith.Store (Tree modPath pyIdx setφ takeφ popφ removeφ getPath setPath LeafT dictSlot)
 
 /-- statement-level transition: count invariant re-established, frame-reachable payloads untouched -/
 structure Tr0 (h h' : Heap) (outs F : List Val) : Prop where
@@ -31,7 +31,7 @@ theorem setIndex_spec {h : Heap} {v new : Val} {F : List Val} {t tn : Tree} (pat
     (match setPath t path tn with
      | some t' => (setIndex h v path new).ok = true ∧ Rep (setIndex h v path new).h (setIndex h v path new).v t'
      | none => (setIndex h v path new).ok = false ∧ Rep (setIndex h v path new).h (setIndex h v path new).v t) := by
-  have W := walk_spec (setLeaf_spec new tn) path h v F t
+  have W := walk_spec (setLeaf_spec new tn) (setLeaf_ins new tn) path h v F t
     (i.congr (fun k => by simp [occ_cons, occ_append])) r (by simpa using rn)
   dsimp only at W
   obtain ⟨Wtr, Wrep⟩ := W
@@ -71,6 +71,19 @@ theorem getPath_list_cons (ts : List Tree) (i : Int) (rest : List Int) :
   rw [getPath]
   cases pyIdx ts.length i <;> rfl
 
+theorem getPath_cont_cons {t : Tree} (hc : t.isCont = true) (i : Int) (rest : List Int) :
+    getPath t (i :: rest) =
+      (match treeSlot t i with
+       | none => none
+       | some j => getPath (t.kids.getD j .null) rest) := by
+  cases t with
+  | null => simp at hc
+  | int n => simp at hc
+  | list ts => rw [getPath_list_cons]; rfl
+  | dict ks vs =>
+    simp only [treeSlot, Tree.keysT_dict, Tree.kids_dict]
+    cases hds : dictSlot ks vs.length i <;> simp only [getPath, hds]
+
 theorem readPath_nil (h : Heap) (v : Val) : readPath h v [] = (h, some v) := by cases v <;> rfl
 
 theorem readPath_spec : ∀ (path : List Int) {h : Heap} {v : Val} {F : List Val} {t : Tree},
@@ -95,21 +108,21 @@ theorem readPath_spec : ∀ (path : List Int) {h : Heap} {v : Val} {F : List Val
       have := Rep_int_inv r; subst this
       exact ⟨rfl, Tr0.refl (i.weaken (fun k => by simp))⟩
     | ref id =>
-      obtain ⟨ts, rfl, hl, a⟩ := Rep_ref_inv r
-      have hlen : (payloadOf h id).length = ts.length := All2.length_eq a
-      rw [getPath_list_cons]
-      cases hp : pyIdx ts.length ix with
+      obtain ⟨hcont, hl, hk, _, a⟩ := Rep_ref_inv r
+      have hlen : (payloadOf h id).length = t.kids.length := All2.length_eq a
+      have hslot := slotOf_eq_treeSlot hk hlen ix
+      rw [getPath_cont_cons hcont]
+      cases hp : treeSlot t ix with
       | none =>
         have e : readPath h (.ref id) (ix :: rest) = (drop h (.ref id), none) := by
-          simp only [readPath, hlen, pyIndex_eq_pyIdx, hp]
+          simp only [readPath, hslot, hp]
         rw [e]
         exact ⟨rfl, (drop_tr i).tr0⟩
       | some j =>
-        have hj : j < (payloadOf h id).length := by
-          rw [hlen]; exact pyIndex_lt (by rw [pyIndex_eq_pyIdx]; exact hp)
+        have hj : j < (payloadOf h id).length := slotOf_lt (by rw [hslot]; exact hp)
         have e : readPath h (.ref id) (ix :: rest) =
             readPath (drop (dup h ((payloadOf h id).getD j .null)) (.ref id)) ((payloadOf h id).getD j .null) rest := by
-          simp only [readPath, hlen, pyIndex_eq_pyIdx, hp]
+          simp only [readPath, hslot, hp]
         rw [e]
         dsimp only
         have hcm : (payloadOf h id).getD j .null ∈ payloadOf h id := getD_mem _ hj
@@ -122,12 +135,12 @@ theorem readPath_spec : ∀ (path : List Int) {h : Heap} {v : Val} {F : List Val
           omega
         have D := drop_tr i1
         have rc1 : Rep (drop (dup h ((payloadOf h id).getD j .null)) (.ref id)) ((payloadOf h id).getD j .null)
-            (ts.getD j .null) :=
+            (t.kids.getD j .null) :=
           D.stable.rep (.root (by simp)) ((All2.getD j _ _ a hj).ext (PayloadExt.dup _ _))
         have I := ih (F := F) (by simpa using D.inv) rc1
         have s01 : Stable h (drop (dup h ((payloadOf h id).getD j .null)) (.ref id)) F :=
           ((PayloadExt.dup h _).stable F).trans (D.stable.mono (by intro v hv; simp [hv]))
-        cases hg : getPath (ts.getD j .null) rest with
+        cases hg : getPath (t.kids.getD j .null) rest with
         | none =>
           rw [hg] at I
           exact ⟨I.1, ⟨I.2.inv, s01.trans I.2.stable⟩⟩
@@ -144,8 +157,14 @@ def appendHeap (h : Heap) (id : Nat) (b : Val) : Heap :=
    (setPayload (makeMut h id).1 (makeMut h id).2 (payloadOf (makeMut h id).1 (makeMut h id).2 ++ [b])).copied,
    (setPayload (makeMut h id).1 (makeMut h id).2 (payloadOf (makeMut h id).1 (makeMut h id).2 ++ [b])).pushes + 1⟩
 
-theorem appendOp_ref (h : Heap) (id : Nat) (b : Val) :
-    appendOp h (.ref id) b = (appendHeap h id b, some (.ref (makeMut h id).2)) := rfl
+theorem appendOp_ref (h : Heap) (id : Nat) (b : Val) (hk : keysOf h id = none) :
+    appendOp h (.ref id) b = (appendHeap h id b, some (.ref (makeMut h id).2)) := by
+  simp only [appendOp, hk]; rfl
+
+/-- `append` on a dict raises: both arguments are dropped -/
+theorem appendOp_dict (h : Heap) (id : Nat) (b : Val) {ks : List Int} (hk : keysOf h id = some ks) :
+    appendOp h (.ref id) b = (drop (drop h (.ref id)) b, none) := by
+  simp only [appendOp, hk]
 
 theorem appendHeap_allocs (h : Heap) (id : Nat) (b : Val) :
     (appendHeap h id b).allocs =
@@ -165,7 +184,19 @@ theorem appendOp_spec {h : Heap} {a b : Val} {F : List Val} {ta tb : Tree}
     have := Rep_int_inv ra; subst this
     exact ⟨rfl, (drop_tr (i.weaken (fun k => by simp))).tr0⟩
   | ref id =>
-    obtain ⟨ts, rfl, hl, a0⟩ := Rep_ref_inv ra
+    obtain ⟨hc, hl, hk, _, a0⟩ := Rep_ref_inv ra
+    cases ta with
+    | null => simp at hc
+    | int n => simp at hc
+    | dict ks vs =>
+      simp only [Tree.keysT_dict] at hk
+      dsimp only
+      rw [appendOp_dict h id b hk]
+      have D1 := drop_tr i
+      have D2 := drop_tr D1.inv
+      exact ⟨rfl, ⟨D2.inv, (D1.stable.mono (by intro v hv; simp [hv])).trans D2.stable⟩⟩
+    | list ts =>
+    simp only [Tree.keysT_list, Tree.kids_list] at hk a0
     dsimp only
     have MS := makeMut_spec (h := h) (id := id) (F := b :: F) i
     have i0 : Inv (makeMut h id).1 (.ref (makeMut h id).2 :: [b] ++ F) := by simpa using MS.tr.inv
@@ -175,14 +206,14 @@ theorem appendOp_spec {h : Heap} {a b : Val} {F : List Val} {ta tb : Tree}
     have R := replace_payload (ins := [b]) (outs := []) (F := F)
       (payloadOf (makeMut h id).1 (makeMut h id).2 ++ [b]) i0 MS.rc1
       (fun k => by simp [occ_append])
-    rw [appendOp_ref]
+    rw [appendOp_ref h id b hk]
     have ea := appendHeap_allocs h id b
     refine ⟨.ref (makeMut h id).2, rfl, ?_, ?_⟩
     · refine ⟨Inv.of_allocs_eq ea (R.inv.congr (fun k => by simp)), ?_⟩
       refine ((MS.tr.stable.mono (by intro v hv; simp [hv])).trans R.stable).trans ?_
       exact (PayloadExt.of_allocs_eq ea).stable F
     · refine (Rep.ext (PayloadExt.of_allocs_eq ea) ?_)
-      apply Rep_ref_list (by simpa using MS.lt)
+      apply Rep_ref_list (by simpa using MS.lt) (by rw [keysOf_setPayload, MS.keys]; exact hk)
       rw [payloadOf_setPayload]; simp only [hl0, and_true, if_true]
       rw [MS.pay]
       refine All2.append ?_ ?_
